@@ -130,7 +130,9 @@ func (c c05) Run(x *Exec, scn any) {
 			l := &log.RollingFileLogger{LoggerBase: base, FileDir: "/logs", FileName: "app.log", Separate: s.Separate,
 				Rotation: log.TimeRotation{Interval: intervals["h"]}, MaxAge: 168,
 				AsyncWrite: s.RAsync, BufferSize: s.BufferSize, BufferFullPolicy: policyOf(s.Policy)}
-			pv, st := call(func() { startErr = l.Start() })
+			var pv any
+			var st string
+			x.do("start", func() { pv, st = call(func() { startErr = l.Start() }) })
 			if pv != nil {
 				o.violate("start-panic", "C05/start-panic/RollingFile/"+panicSite(st), "RollingFileLogger.Start panicked: %v", pv)
 				return
@@ -160,7 +162,9 @@ func (c c05) Run(x *Exec, scn any) {
 		}
 		spec.Logs = []LogSpec{lg}
 		cfg := spec.Render()
-		pv, st := call(func() { startErr = log.Refresh(cfg) })
+		var pv any
+		var st string
+		x.do("refresh", func() { pv, st = call(func() { startErr = log.Refresh(cfg) }) })
 		if pv != nil {
 			o.violate("refresh-panic", "C05/refresh-panic/"+s.Kind+"/"+panicSite(st), "Refresh panicked for a %s logger: %v", s.Kind, pv)
 			return
